@@ -100,6 +100,9 @@ def main():
             override = os.path.join(V, "tools", "manifest_text", pid + ".txt")   # the builder's own final paragraph, if any
             if os.path.exists(override):
                 c["text"] = " ".join(open(override).read().split())
+            tover = os.path.join(V, "tools", "manifest_text", pid + ".technique.txt")
+            if os.path.exists(tover):
+                c["technique"] = " ".join(open(tover).read().split())
             checks.append({
                 "property_id": pid,
                 "quick_cmd": f"./check {pid} --tier quick",
